@@ -90,7 +90,13 @@ class FakeManager:
         self.failing = failing
         self.requests = []
 
+    def shutdown(self, *a, **k):
+        # like s3transfer's manager: nothing can be queued after a shutdown
+        self.closed = True
+
     def download(self, bucket, key, fileobj, extra_args=None, subscribers=None):
+        if getattr(self, "closed", False):
+            raise RuntimeError("cannot schedule new futures after shutdown")
         vid = (extra_args or {}).get("VersionId")
         self.requests.append(vid)
         fut = FakeFuture(vid in self.failing)
@@ -335,9 +341,19 @@ def evaluate(case):
                     elif not res.last_modified.is_monotonic_increasing or "results_normalized_margin" not in res.columns:
                         viol("handler-rows", f"window=[{sk},{ek}]: rows not sorted by version time or estimand columns missing")
                     outcomes.add(len(exp))
+                # the same handler object is asked again (results, then predictions-style second retrieval): same answer
+                try:
+                    h.s3_client.manager.requests = []
+                    res2 = h.get_versioned_results()
+                    same = (res is None and res2 is None) or (res is not None and res2 is not None and res.equals(res2))
+                    if not same:
+                        viol("handler-second-retrieval-differs", f"window=[{sk},{ek}] {eid}: a second retrieval on the same handler returned {None if res2 is None else len(res2)} rows, the first {None if res is None else len(res)}")
+                except Exception as e:
+                    viol("handler-second-retrieval-raised", f"window=[{sk},{ek}] {eid}: second retrieval on the same handler: {type(e).__name__}: {e}")
+                cov["handler_repeated_retrievals"] += 1
         cov["handler_executions"] += runs
         nontrivial = True
     return {"violations": V, "cov": dict(cov), "outcome": sha(sorted(map(str, outcomes)))[:16], "nontrivial": nontrivial, "transitions": max(1, runs)}
 
 
-REQUIRED_COUNTERS = {"list_executions": 10000, "get_executions": 5000, "window_cuts_history": 500, "runs_with_failed_download": 500, "page_boundary_inside_window": 200, "early_stop_possible": 100, "handler_empty_window": 2, "handler_init_cutting_windows": 8}
+REQUIRED_COUNTERS = {"list_executions": 10000, "get_executions": 5000, "window_cuts_history": 500, "runs_with_failed_download": 500, "page_boundary_inside_window": 200, "early_stop_possible": 100, "handler_empty_window": 2, "handler_init_cutting_windows": 8, "handler_repeated_retrievals": 8}
